@@ -2,7 +2,7 @@
    Proofs/ServerNI.v; the model is Model/Server.v (auth enabled).  `idx_str` is u32::to_string (only its
    injectivity is used), `score` the f32 score function (uninterpreted). *)
 From Coq Require Import List NArith ZArith Bool String.
-From Kyro Require Import Model.Server Proofs.ServerProofs Proofs.ServerNI.
+From Kyro Require Import Model.Server Proofs.ServerProofs Proofs.ServerNI Proofs.TenantMapProofs.
 Import ListNotations.
 Open Scope N_scope.
 
@@ -12,20 +12,41 @@ Open Scope N_scope.
    Everything else — found/not-found, vectors, metadata, counts, per-item results, /usage — is compared. *)
 Definition responses_of (cfg : config) (A : N) (cs : list call) (rs : list resp) : list resp := sel cfg A cs rs.
 
-(* Noninterference.  PARTIAL in one respect: it is proved for histories in which tenant A itself
-   issues no BulkLoadHnsw (the removed tenant B and third tenants may issue anything, including
-   BulkLoadHnsw).  Full statement = the same without the `covered` premise.
+(* Noninterference, for every history over the property's RPC list (Insert, BulkInsert, BulkLoadHnsw,
+   Query, BulkQuery, Search, BulkSearch, UpdateMetadata, Delete, BatchDelete by ids / filter,
+   FlushHotTier, GET /usage), any number of tenants, any interleaving: removing all calls of another
+   tenant B does not change any of tenant A's answers — with the two exceptions made explicit by
+   `responses_of` (Search-family hit lists/total_found, FlushHotTier's count), both refuted below.
    Premise `A is not an admin key`: an admin may read every tenant's usage by design. *)
-Theorem C10_noninterference_partial :
+Theorem C10_noninterference :
   forall (idx_str : N -> str) (score : Z -> Z),
   (forall a b, idx_str a = idx_str b -> a = b) ->
   forall (cfg : config) (A B : N) (cs : list call),
   (forall k ki, nget (c_keys cfg) k = Some ki -> k_tenant ki = A -> k_admin ki = false) ->
   A <> B ->
-  (forall c, In c cs -> callerA cfg A c = true -> covered (c_req c) = true) ->
   responses_of cfg A cs (run idx_str score cfg cs)
   = responses_of cfg A (remove_tenant cfg B cs) (run idx_str score cfg (remove_tenant cfg B cs)).
-Proof. intros idx_str score Hinj cfg A B cs Hadm HAB Hcov. exact (noninterference_partial idx_str score Hinj cfg A Hadm B cs HAB Hcov). Qed.
+Proof. intros idx_str score Hinj cfg A B cs Hadm HAB. exact (noninterference idx_str score Hinj cfg A Hadm B cs HAB). Qed.
+
+(* Tenant index assignment over the life of a data dir (tmap_create at the first start, tmap_ensure_all
+   at every later start with a possibly extended key file): indices stay dense and pairwise distinct,
+   tenants present at the first start keep their index for ever, and a tenant the map has not seen
+   gets the index `size of the map`, which no existing tenant has, without moving anybody else. *)
+Theorem C10_tenant_index_stable_across_restart :
+  forall (first_keys : list str) (later : list (list str)),
+  let m0 := tmap_create first_keys in
+  let m := fold_left tmap_ensure_all later m0 in
+  tm_ok m
+  /\ (forall t i, tm_get m0 t = Some i -> tm_get m t = Some i)
+  /\ (forall t, tm_get m t = None ->
+        tm_get (tmap_ensure m t) t = Some (tlen m)
+        /\ (forall t' i, tm_get m t' = Some i -> i <> tlen m /\ tm_get (tmap_ensure m t) t' = Some i)).
+Proof. exact tenant_index_stable_across_restart. Qed.
+(* two keys of one tenant (key rotation) do not consume two indices *)
+Example C10_tenant_index_dedup :
+  tmap_create [s2l "acme"; s2l "bolt"; s2l "acme"; s2l "cato"] = [(s2l "acme", 0); (s2l "bolt", 1); (s2l "cato", 2)]
+  /\ tm_get (tmap_ensure (tmap_create [s2l "acme"; s2l "bolt"; s2l "acme"; s2l "cato"]) (s2l "dax")) (s2l "dax") = Some 3.
+Proof. split; vm_compute; reflexivity. Qed.
 
 (* The two unwinding lemmas, for every request kind INCLUDING BulkLoadHnsw by other tenants:
    a call authenticated as another tenant leaves A's view (documents, quota count, usage) unchanged. *)
@@ -102,7 +123,7 @@ Theorem C10_unauthenticated_refused :
 Proof. intros idx_str score cfg s c H. apply unauthenticated_refused. apply auth_none_cases. exact H. Qed.
 
 (* Non-vacuity: the hypotheses of the noninterference theorem hold for the two-tenant witness history
-   (keys of tenant 0 are not admin, tenant 0 issues no bulk load), and the theorem then says that
+   (keys of tenant 0 are not admin), and the theorem then says that
    tenant 0's projected answers agree — while the unprojected Search answers differ (refuted above). *)
 Example C10_nonvacuous :
   responses_of w_cfg 0 (w_a_inserts ++ w_b_inserts ++ [w_search]) (run dec_str w_score w_cfg (w_a_inserts ++ w_b_inserts ++ [w_search]))
@@ -113,7 +134,8 @@ Proof.
   intros k ki H _. cbn in H. destruct (k =? 1); [inversion H; reflexivity|]. destruct (k =? 2); [inversion H; reflexivity|discriminate].
 Qed.
 
-Print Assumptions C10_noninterference_partial.
+Print Assumptions C10_noninterference.
+Print Assumptions C10_tenant_index_stable_across_restart.
 Print Assumptions C10_other_tenant_step_invisible.
 Print Assumptions C10_search_containment.
 Print Assumptions C10_bulk_search_containment.
